@@ -94,6 +94,11 @@ def run(ctx):
             if r.get("fold"):
                 ctx.dist["fold-skipped"] += 1
                 continue
+            if "mid_created" in r and r.get("mid_fields", [0, 0, 0, 1])[3:] == [0, 0, 0] and abs(r["mid_created"] - r["mid_want"]) > 2.01:
+                # (only where midnight exists and is unambiguous in the zone: the broken-down time really is 00:00:00)
+                ctx.violation(f"TZ={z} utc={r['utc']}: created set to midnight {r['mid_want']} (modified {t}) is reported as {r['mid_created']}",
+                              f"created-at-midnight:{tag}", rep)
+                continue
             want = t - t % 2
             offnote = "frac" if z.startswith(("IST", "NPT", "NST")) else "dst" if "," in z else "plain"
             ctx.nontrivial.add((z, r["utc"], t)) if offnote != "plain" else None
